@@ -350,6 +350,21 @@ fn gen_access(rng: &mut Rng, k: &Knobs) -> (Vec<usize>, Vec<usize>) {
             }
         }
     }
+    // now and then a system with a very long declared list (mostly reads or mostly writes)
+    if k.nres >= 11 && rng.chance(1, 6) {
+        let writer = rng.chance(1, 2);
+        r.clear();
+        w.clear();
+        for i in 0..k.nres {
+            if rng.chance(4, 5) {
+                if writer == rng.chance(9, 10) {
+                    w.push(i);
+                } else {
+                    r.push(i);
+                }
+            }
+        }
+    }
     // occasionally list the same resource twice / in both lists (legal declarations)
     if !r.is_empty() && rng.chance(1, 12) {
         let x = *rng.pick(&r);
@@ -454,9 +469,31 @@ fn gen_regs(rng: &mut Rng, cfg: &GenCfg, k: &Knobs, resmap: &[RKey], budget: &mu
             let heavy = gen_name(rng, &mut names, k);
             regs.push(Reg::Sys { name: heavy, deps: vec![], reads: vec![], writes: vec![y], hint: 5 });
             let n = 4 + rng.below(3) as usize;
+            let bulky = k.nres >= 11 && rng.chance(1, 2);
             for j in 0..n {
                 let nm = gen_name(rng, &mut names, k);
-                let (reads, writes) = if j % 3 == 2 && rng.chance(1, 2) { (vec![x], vec![]) } else { (vec![], vec![x]) };
+                let (mut reads, mut writes) = if j % 3 == 2 && rng.chance(1, 2) { (vec![x], vec![]) } else { (vec![], vec![x]) };
+                if bulky && j < 2 {
+                    // members with long lists of their own: the group's accumulated lists spill
+                    for i in 0..k.nres {
+                        if i != x && i != y && rng.chance(3, 5) {
+                            if (j == 0) == rng.chance(4, 5) {
+                                writes.push(i);
+                            } else {
+                                reads.push(i);
+                            }
+                        }
+                    }
+                    if j == 1 && rng.chance(1, 2) {
+                        // a member that only reads what it conflicts on
+                        writes.retain(|&i| i != x);
+                        if !reads.contains(&x) {
+                            reads.push(x);
+                        }
+                    }
+                    rng.shuffle(&mut reads);
+                    rng.shuffle(&mut writes);
+                }
                 regs.push(Reg::Sys { name: nm, deps: vec![], reads, writes, hint: 1 });
             }
             *budget -= n + 1;
@@ -500,7 +537,10 @@ fn gen_regs(rng: &mut Rng, cfg: &GenCfg, k: &Knobs, resmap: &[RKey], budget: &mu
 
 pub fn gen_scenario(seed: u64, cfg: &GenCfg) -> Scenario {
     let mut rng = Rng::sub(seed, 1);
-    let nres = 1 + rng.below(10) as usize;
+    // mostly few resources (conflicts are frequent); one scenario in four has enough of them for
+    // declared lists and accumulated group lists to outgrow their inline capacities (12 reads,
+    // 10 writes per group, 6 groups per stage)
+    let nres = if rng.chance(1, 4) { 11 + rng.below(14) as usize } else { 1 + rng.below(10) as usize };
     let k = Knobs {
         nres,
         density: [60, 120, 200, 350, 500][rng.below(5) as usize],
